@@ -27,7 +27,7 @@ RULE = ('histories of 6-16 (thorough 8-25) operations from {save, load, list all
 RULE += ('; also: saves that fail half way (unpicklable value), mutable inputs changed in place, falsy tags')
 ASSUMPTIONS = ['exception classes are not compared (KeyError vs FileNotFoundError are both "raises")', 'listings compared as sets',
                'bundles compared structurally (exceptions by type and args)']
-REQUIRED = ['saves_compared_with_live', 'failed_saves', 'failed_overwrites', 'ops/save', 'ops/load', 'ops/list', 'ops/listp', 'ops/del', 'ops/delp', 'ops/progress', 'ops/loadrun', 'loads_compared', 'loads_after_progress',
+REQUIRED = ['pruning_saves', 'saves_read_back_inside_the_loop', 'saves_compared_with_live', 'failed_saves', 'failed_overwrites', 'ops/save', 'ops/load', 'ops/list', 'ops/listp', 'ops/del', 'ops/delp', 'ops/progress', 'ops/loadrun', 'loads_compared', 'loads_after_progress',
             'absent_loads', 'overwrites', 'pidkind/int', 'pidkind/uuid', 'pidkind/str', 'pidkind/glob']
 BOUNDS = {'quick': '900 histories of 6-16 ops', 'thorough': '9000 histories of 8-25 ops'}
 
@@ -35,6 +35,15 @@ BOUNDS = {'quick': '900 histories of 6-16 ops', 'thorough': '9000 histories of 8
 @plumpy.auto_persist()
 class CtxProg(plumpy.ContextMixin, programs.ProgBase):
     """ProgBase program whose steps also grow a mutable context (list + counter) and emit an output."""
+
+    _pruning = None
+
+    def save_instance_state(self, out_state, save_context):
+        # a process that keeps only its latest checkpoint: while it is being saved it removes what the store holds for it so far
+        # (the store is called back from inside its own save_checkpoint)
+        if self._pruning is not None:
+            self._pruning.delete_process_checkpoints(self.pid)
+        super().save_instance_state(out_state, save_context)
 
     def _enter(self, i, args, kwargs):
         super()._enter(i, args, kwargs)
@@ -55,7 +64,7 @@ PROGRAM = {'steps': [S(['wait', 'w0', None], sync=True), S(['cont', [[1, 2]], {}
 # ('glob': separator-free strings that contain characters with a meaning in file-name patterns)
 PIDS = {'int': [1, 10, 12], 'uuid': [uuid.UUID(int=7), uuid.UUID(int=8), uuid.UUID(int=9)], 'str': ['job', 'job2', 'a'], 'glob': ['calc[1]', 'calc1', 'job-[a-z]*']}
 TAGS = {'int': [None, 1, 2, 0], 'uuid': [None, uuid.UUID(int=77)], 'str': [None, 't', 'tt', 'job', ''], 'glob': [None, 't[0]', '?', 't0']}
-OPS = ['save'] * 5 + ['load'] * 5 + ['progress'] * 4 + ['list', 'listp', 'del', 'delp', 'loadrun', 'loadrun', 'badsave']
+OPS = ['save'] * 5 + ['load'] * 5 + ['progress'] * 4 + ['list', 'listp', 'del', 'delp', 'loadrun', 'loadrun', 'badsave', 'prunesave']
 
 
 def gen_cases(tier, seed):
@@ -70,6 +79,8 @@ def gen_cases(tier, seed):
             i, t = rng.randrange(3), rng.randrange(len(TAGS[kind]))
             if op in ('load', 'loadrun', 'del') and keys and rng.random() < 0.85:
                 i, t = rng.choice(sorted(keys))  # mostly aim at keys that exist
+            if op == 'prunesave':
+                keys = {k for k in keys if k[0] != i} | {(i, t)}
             if op == 'save':
                 keys.add((i, t))
             elif op == 'del':
@@ -77,7 +88,7 @@ def gen_cases(tier, seed):
             elif op == 'delp':
                 keys = {k for k in keys if k[0] != i}
             hist.append([op, i, t])
-        yield {'kind': kind, 'history': hist}
+        yield {'kind': kind, 'history': hist, 'inside_loop': h % 3 == 2}
 
 
 def norm(x):
@@ -142,7 +153,24 @@ def run_case(case):
                 ctx = '%s(pid=%r, tag=%r) after %s' % (op, pid, tag, done_ops[:-1])
                 if op == 'save':
                     snap = norm(copy.deepcopy(dict(plumpy.Bundle(proc))))
-                    r = both(lambda p: p.save_checkpoint(proc, tag))
+                    if case.get('inside_loop'):
+                        # the save is made by code running inside the event loop (a step, a callback) which reads its own write
+                        # back before it returns to the loop: stored means stored, not scheduled to be stored
+                        def save_and_read_back(p):
+                            async def inside():
+                                p.save_checkpoint(proc, tag)
+                                listed = [(c.pid, c.tag) for c in p.get_checkpoints()]
+                                return [(pid, tag) in listed, norm(dict(p.load_checkpoint(pid, tag)))]
+                            return drv.loop.run_until_complete(inside())
+
+                        r = both(save_and_read_back)
+                        obs['saves_read_back_inside_the_loop'] = obs.get('saves_read_back_inside_the_loop', 0) + 1
+                        for which, rr in zip(('mem', 'pickle'), r):
+                            if rr[0] == 'ok' and (rr[1][0] is not True or rr[1][1] != snap):
+                                viol.append(V('save-not-visible', 'save-not-visible:%s' % which, '%s: made inside the running loop and read back at once: listed=%s, the loaded '
+                                              'snapshot %s the state saved' % (ctx, rr[1][0], 'is' if rr[1][1] == snap else 'is NOT')))
+                    else:
+                        r = both(lambda p: p.save_checkpoint(proc, tag))
                     if r[0][0] != 'ok' or r[1][0] != 'ok':
                         viol.append(V('save-raised', 'save-raised:%s' % ('mem' if r[0][0] != 'ok' else 'pickle'), '%s: %s' % (ctx, r)))
                         break
@@ -154,6 +182,26 @@ def run_case(case):
                         if bkey in snap and value is not None and snap[bkey] != norm(value):
                             viol.append(V('save-stale', 'save-stale:%s' % bkey, '%s: the saved state holds %s %r, the process has %r' % (ctx, bkey, snap[bkey], norm(value))))
                     obs['saves_compared_with_live'] = obs.get('saves_compared_with_live', 0) + 1
+                    model[key] = snap
+                    progressed_since_save[key] = False
+                elif op == 'prunesave':
+                    snap = norm(copy.deepcopy(dict(plumpy.Bundle(proc))))
+
+                    def pruning_save(p):
+                        proc._pruning = p
+                        try:
+                            return p.save_checkpoint(proc, tag)
+                        finally:
+                            proc._pruning = None
+
+                    r = both(pruning_save)
+                    obs['pruning_saves'] = obs.get('pruning_saves', 0) + 1
+                    if r[0][0] != 'ok' or r[1][0] != 'ok':
+                        viol.append(V('save-raised', 'save-raised:pruning:%s' % ('mem' if r[0][0] != 'ok' else 'pickle'), '%s: %s' % (ctx, r)))
+                        break
+                    for k in [k for k in model if k[0] == pid]:
+                        del model[k]
+                        progressed_since_save.pop(k, None)
                     model[key] = snap
                     progressed_since_save[key] = False
                 elif op == 'badsave':
